@@ -34,6 +34,11 @@ type WireClient struct {
 	Addr  string     `json:"addr"`
 	Calls []WireCall `json:"calls"`
 	Raw   []string   `json:"raw,omitempty"` // C15: hex-free description of raw byte actions, see rawAction
+	// network faults on this client's connections (C15): a small receive window (the client of a "stall"
+	// action does not read, so the server's replies back up), and streams cut after that many bytes
+	Win    int `json:"win,omitempty"`
+	CutS2C int `json:"cut_s2c,omitempty"`
+	CutC2S int `json:"cut_c2s,omitempty"`
 }
 
 type WireScn struct {
@@ -352,7 +357,7 @@ func wireClient(cw *c16World, sc *WireScn, ci int, spec WireClient, fhs [][]byte
 	host, portStr, _ := net.SplitHostPort(spec.Addr)
 	var port int
 	fmt.Sscanf(portStr, "%d", &port)
-	cl, err := w.Dial(spec.Addr, RootCred, &simrt.ConnFaults{Segment: sc.Segment, Latency: 20 * time.Microsecond})
+	cl, err := w.Dial(spec.Addr, RootCred, &simrt.ConnFaults{Segment: sc.Segment, Latency: 20 * time.Microsecond, Window: spec.Win, CutS2CAfter: spec.CutS2C, CutC2SAfter: spec.CutC2S})
 	if err != nil {
 		return
 	}
@@ -518,9 +523,10 @@ func rawClient(cw *c16World, sc *WireScn, ci int, spec WireClient, cl *Client, f
 			rep, err := cl.ReadReply(x, nfsclient.ProgNFS, 3, 0)
 			o.Tick()
 			if err != nil {
-				if _, gone := err.(*ErrNoReply); gone {
+				if _, gone := err.(*ErrNoReply); gone && spec.CutS2C == 0 && spec.CutC2S == 0 {
 					o.Vio("C15.decodable-call-not-answered", "after="+what, "client %d: a well-formed call (xid %d) sent %s got no reply: %v", ci, x, what, err)
 				}
+				// on a connection whose streams are cut by the network a lost reply is the network's doing
 				return false
 			}
 			if rep.XID != x {
@@ -596,6 +602,42 @@ func rawClient(cw *c16World, sc *WireScn, ci int, spec WireClient, cl *Client, f
 			}
 			cl.Conn.Write(nfsclient.Frame(b, nil))
 			expect([]uint32{x}, "adversarial-cookie")
+		case "stall":
+			// a client that pipelines many calls and does not read: the replies back up in its small window
+			// and the server's writes block. The server must go on serving everybody else (the probe
+			// connection judges that), and whatever this client reads when it wakes up is an in-order,
+			// duplicate-free prefix of the answers (the server may have given up on the connection).
+			var xs []uint32
+			var wire []byte
+			for k, n := 0, 20+r.Int(60); k < n; k++ {
+				x, b := mk(1, nfsclient.ArgsFH(fhs[0]))
+				xs = append(xs, x)
+				wire = append(wire, nfsclient.Frame(b, nil)...)
+			}
+			cl.Conn.SetWriteDeadline(time.Now().Add(60 * time.Second))
+			cl.Conn.Write(wire)
+			simrt.Fault("net.stall_peer")
+			simrt.Sleep(time.Duration([]int{1, 20, 100}[r.Int(3)]) * time.Second)
+			cl.Conn.SetReadDeadline(time.Now().Add(20 * time.Second))
+			next := 0
+			for next < len(xs) {
+				rec, err := nfsclient.ReadRecord(cl.Conn, 8<<20)
+				if err != nil {
+					break
+				}
+				o.Tick()
+				rep, derr := nfsclient.DecodeReply(rec)
+				if derr != nil {
+					o.Vio("C14.rpc-reply-malformed", "after=stall", "reply on a stalled connection is not RFC 1831: %v", derr)
+					break
+				}
+				if rep.XID != xs[next] {
+					o.Vio("C15.reply-out-of-order", "after=stall", "client %d: after a stall expected the reply to xid %d (call %d of %d), got xid %d", ci, xs[next], next, len(xs), rep.XID)
+					break
+				}
+				next++
+			}
+			cl.Dead = true
 		case "burst":
 			// several calls in one write: each answered once, in order
 			var xs []uint32
@@ -815,6 +857,22 @@ func genC15(r *simrt.Rand, tier string) any {
 		sc.Clients = append(sc.Clients, cl)
 	}
 	// a well-behaved probe connection whose calls must all be answered
+	// network faults on some hostile connections: a reader that stalls behind a small window, streams cut
+	// after a drawn number of bytes (mid-record, mid-reply)
+	for i := range sc.Clients {
+		switch r.Int(6) {
+		case 0:
+			sc.Clients[i].Win = []int{256, 1024, 4096}[r.Int(3)]
+			sc.Clients[i].Raw = append([]string{"stall"}, sc.Clients[i].Raw...)
+			if r.Pct(50) {
+				sc.Clients[i].Raw = []string{"call", "stall", "call"}
+			}
+		case 1:
+			sc.Clients[i].CutS2C = 1 + r.Int(300)
+		case 2:
+			sc.Clients[i].CutC2S = 1 + r.Int(400)
+		}
+	}
 	probe := WireClient{Addr: "10.0.0.77:901"}
 	for i, n := 0, 3+r.Int(4); i < n; i++ {
 		probe.Raw = append(probe.Raw, []string{"call", "getattr", "two", "burst"}[r.Int(4)])
@@ -951,7 +1009,7 @@ func init() {
 		Rule: "one case = 1-3 clients each sending 3-12 calls drawn from all 22 NFSv3 and 6 MOUNT procedures (v1 and v3) with well-formed arguments against handles of a file, directory, symlink, root, a never-issued and a stale handle, or arguments truncated at a 4-byte boundary, replaced by garbage, with a length word overwritten by 2^31/2^32-1/limit+1, or with trailing words; unknown programs, versions, procedures and credential flavors; under a drawn initial policy (read-only, rate limiting with per-client burst 1, or rate limiting with generous request limits and per-operation limits of 1/s for MNT, READDIR and large I/O with those calls repeated) and, in 60% of runs, a backend call stalled for 30 ms-6 s with a policy update issued on top of it (so arriving calls hit the drain window), in 35% of runs 1-3 backend errors (EIO/ENOSPC/EACCES on a drawn or on any backend operation, once or repeating) so that the failure arms of the procedures are produced from real backend errors, random scheduler, optional stream segmentation; monitor on every reply: strict RFC 1831 reply decode, XID echo, and strict decode of the result as the RFC 1813 / MOUNT result type of its procedure and status (nfsstat3 / mountstat3 membership, exact consumption); the same monitor runs in every other server-level check; non-trivial = every run (at least one reply decoded); distinct by event digest",
 		Gen:  genC14, New: func() any { return &WireScn{} }, Run: runWire, Shrink: shrinkWire, Real: wireReal, Stubbed: seqStubbed})
 	Register(&Prop{ID: "C15", Level: "exploration",
-		Rule: "one case = 1-3 hostile connections each performing 2-7 actions from {valid call, two calls back to back, call split into up to 60 fragments incl. empty ones, two messages in one record, single bit flip, random bytes, fragment header declaring 2^31-1 bytes, credential length 2^32-1, truncated record followed by close, a record of 5-12 fragments of 512 KiB whose first fragment is a complete valid call (must be refused, never answered), READDIR/READDIRPLUS with cookies >= 2^63, 3-6 pipelined calls in one write}, under no, strict or per-operation rate limiting, plus one well-behaved probe connection, all interleaved by the random scheduler with arbitrary transport segmentation; oracle: no panic escapes any goroutine; every well-formed call is answered once, in order, with its XID (also on the probe connection afterwards); after an undecodable stream the server closes the connection within its read timeout (75 simulated s); runtime TotalAlloc growth while the server digests a hostile message stays below 8 MiB (judged in runs without megabyte-sized client traffic); after the last call nothing more arrives (a call is answered at most once); replies that do come decode strictly; non-trivial = every run; distinct by event digest",
+		Rule: "one case = 1-3 hostile connections each performing 2-7 actions from {valid call, two calls back to back, call split into up to 60 fragments incl. empty ones, two messages in one record, single bit flip, random bytes, fragment header declaring 2^31-1 bytes, credential length 2^32-1, truncated record followed by close, a record of 5-12 fragments of 512 KiB whose first fragment is a complete valid call (must be refused, never answered), READDIR/READDIRPLUS with cookies >= 2^63, 3-6 pipelined calls in one write}, under no, strict or per-operation rate limiting, plus one well-behaved probe connection, all interleaved by the random scheduler with arbitrary transport segmentation; network faults on half of the hostile connections: a client that pipelines 20-80 calls behind a 256-4096 byte window and does not read for 1-100 s (the server's writes block; what it reads afterwards must be an in-order duplicate-free prefix of the answers), client->server or server->client streams cut after 1-400 bytes (mid-record, mid-reply; lost replies on such a connection are not held against the server); oracle: no panic escapes any goroutine; every well-formed call is answered once, in order, with its XID (also on the probe connection afterwards); after an undecodable stream the server closes the connection within its read timeout (75 simulated s); runtime TotalAlloc growth while the server digests a hostile message stays below 8 MiB (judged in runs without megabyte-sized client traffic); after the last call nothing more arrives (a call is answered at most once); replies that do come decode strictly; non-trivial = every run; distinct by event digest",
 		Gen:  genC15, New: func() any { return &WireScn{} }, Run: runWire, Shrink: shrinkWire, Real: wireReal, Stubbed: seqStubbed})
 	Register(&Prop{ID: "C09", Level: "exploration",
 		Rule: "one case = one client from one of 9 peer addresses (IPv4, IPv6, IPv4-mapped, loopback; ports either side of 1024) sending 3-10 well-formed calls of any program/procedure to a server whose AllowedIPs is one of 14 lists (single addresses, CIDRs of prefix length 0,1,8,24,30,31,32,33(malformed), IPv6, IPv4-mapped, malformed entries, lists in which every entry is malformed, single IPv6 hosts) with Secure on/off, optionally switched to another such policy at runtime on the live connection through UpdatePolicyOptions or UpdateExportOptions; oracle: independent membership function (bit arithmetic over the normalised address); a peer excluded by every policy possibly in force gets MSG_DENIED (or is disconnected at accept time) and causes no backend call; a peer admitted by every such policy is never denied; non-trivial = every run; distinct by event digest. The input space (addresses x lists) is sampled.",
